@@ -20,22 +20,24 @@ const repoRoot = "/repo"
 const repoModule = "github.com/tink-crypto/tink-go/v2"
 
 type Engine struct {
-	fset       *token.FileSet
-	pkgs       map[string]*packages.Package
-	contracts  map[string]*FuncContract // pkgpath#Key
-	cfiles     []*ContractFile
-	specs      map[string]*SpecFunc
-	specConsts map[string]*big.Int
-	lemmas     map[string]*Lemma
-	lemmaList  []*Lemma
-	axioms     []*Axiom
-	decls      map[*types.Func]*ast.FuncDecl
-	declPkg    map[*types.Func]*packages.Package
-	globInits  map[*types.Var]ast.Expr
-	globPkg    map[*types.Var]*packages.Package
-	autoInl    map[*types.Func]bool
-	verifRoot  string
-	overlay    map[string][]byte
+	fset        *token.FileSet
+	pkgs        map[string]*packages.Package
+	contracts   map[string]*FuncContract // pkgpath#Key
+	cfiles      []*ContractFile
+	specs       map[string]*SpecFunc
+	specConsts  map[string]*big.Int
+	lemmas      map[string]*Lemma
+	lemmaList   []*Lemma
+	axioms      []*Axiom
+	decls       map[*types.Func]*ast.FuncDecl
+	declPkg     map[*types.Func]*packages.Package
+	globInits   map[*types.Var]ast.Expr
+	globPkg     map[*types.Var]*packages.Package
+	autoInl     map[*types.Func]bool
+	verifRoot   string
+	overlay     map[string][]byte
+	ghostVars   map[string]bool
+	ghostFields map[string]*SpecFunc
 }
 
 func (sf *SpecFunc) String() string { return sf.Name }
@@ -104,6 +106,18 @@ func (e *Engine) addContractFile(cf *ContractFile, pkgPath string) {
 		e.lemmaList = append(e.lemmaList, lm)
 	}
 	e.axioms = append(e.axioms, cf.Axioms...)
+	if e.ghostVars == nil {
+		e.ghostVars = map[string]bool{}
+	}
+	for _, g := range cf.GhostVars {
+		e.ghostVars[g] = true
+	}
+	if e.ghostFields == nil {
+		e.ghostFields = map[string]*SpecFunc{}
+	}
+	for _, g := range cf.GhostFields {
+		e.ghostFields[g.Name] = g
+	}
 }
 
 func (e *Engine) lookupSpec(name string, pkg *types.Package) *SpecFunc {
@@ -117,6 +131,25 @@ func (e *Engine) lookupSpec(name string, pkg *types.Package) *SpecFunc {
 	}
 	if sf, ok := e.specs[name]; ok {
 		return sf
+	}
+	// qualified: pkgname.f
+	if i := strings.Index(name, "."); i > 0 {
+		pn, fn := name[:i], name[i+1:]
+		for key, sf := range e.specs {
+			j := strings.Index(key, "#")
+			if j < 0 || key[j+1:] != fn {
+				continue
+			}
+			pp := key[:j]
+			if pp == pn || strings.HasSuffix(pp, "/"+pn) {
+				if sf.Pkg == nil {
+					if p := e.pkgs[pp]; p != nil {
+						sf.Pkg = p.Types
+					}
+				}
+				return sf
+			}
+		}
 	}
 	return nil
 }
